@@ -151,6 +151,16 @@ def seed_dag_order(top, rng):
   ffs = sorted(top._dsl.all_update_ff, key=key)
   rng.shuffle(ffs)
   top._dsl.all_update_ff = OrderedSet(ffs)
+  # constraints that involve top-level callee methods (OpenLoopCLPass): pairs of functions / bound methods,
+  # hashed by address - present them in a name order as well
+  tl = getattr(top._dag, "top_level_callee_constraints", None)
+  if tl:
+    def mkey(f):
+      owner = getattr(f, "__self__", None)
+      return (key(f) if owner is None else repr(owner), getattr(f, "__name__", ""), getattr(f, "__qualname__", ""))
+    pairs = sorted(tl, key=lambda e: (mkey(e[0]), mkey(e[1])))
+    rng.shuffle(pairs)
+    top._dag.top_level_callee_constraints = OrderedSet(pairs)
 
 
 # ---------------------------------------------------------------------------
